@@ -570,6 +570,12 @@ theorem step_inv (s : State) (o : Op) (h : Inv dig s) (hp : pre dig s o) : Inv d
               exact Or.inr ⟨(mem_del _ _ _).mpr ⟨hne, h1⟩, h2⟩
         all_goals exact fc_safe1 dig hinj s d downs hc _ this
     · exact h
+  | fetch d =>
+    simp only [step]
+    exact ⟨h.good,
+      fun x hx => Safe1.mono dig (h.acked x hx) (fun _ h => h) (fun h => (mem_ins _ _ _).mpr (Or.inr h)) id id,
+      fun t ht => ThreadOk.mono dig (h.thr t ht) (fun _ h => h) (fun h => (mem_ins _ _ _).mpr (Or.inr h)) id id,
+      h.nofc⟩
   | restart =>
     simp only [step]
     exact ⟨good_restart _ h.good,
